@@ -150,7 +150,7 @@ def run_case(case):
             colmode = r.choice(['none', 'none', 'direct'])
         else:
             colmode = r.choice(['tree', 'linetree'])
-        nroot = r.choice([(1, 1, 1), (2, 1, 1), (2, 2, 1), (3, 2, 2), (1, 3, 1), (3, 3, 2)])
+        nroot = r.choice([(1, 1, 1), (2, 1, 1), (2, 2, 1), (3, 2, 2), (1, 3, 1), (3, 3, 2), (1, 1, 2), (2, 1, 3), (1, 2, 3), (1, 1, 3)])      # every ordering of the three counts, incl. more boxes in z than in y or x
         rs = 10 ** r.uniform(-1, 2)
         sim = rebound.Simulation()
         sim.rand_seed = r.randrange(1, 2 ** 31)
